@@ -36,11 +36,19 @@ NAN = float("nan")
 
 
 class Counter:
+    """Fresh numbers for the model engines: symbols, or - `numeric` - distinct multiples of 1/8 (exactly representable at three decimals, none of them
+    within the comparison tolerance of 1), so that code which *computes* with a height or a weight (compares it, tests it) is interpreted on numbers."""
+
     def __init__(self) -> None:
         self.n = 0
+        self.numeric = False
 
-    def sym(self, hint: str = "x") -> Sym:
+    def sym(self, hint: str = "x") -> Any:
         self.n += 1
+        if self.numeric:
+            if self.n % 8 == 0:
+                self.n += 1
+            return self.n / 8.0
         return Sym(f"{hint}{self.n}")
 
 
@@ -80,7 +88,11 @@ def new_exec(p: Program) -> ObjExec:
     ex.func_hooks["ext:np.isinf"] = lambda ex_, e, args, kw: (not isinstance(args[0], (Sym, App))) and args[0] in (float("inf"), float("-inf"))
     ex.func_hooks["ext:inspect.isclass"] = lambda ex_, e, args, kw: isinstance(args[0], ClassV)
     # loading a rule / a formula is the subject of other rules (LD, PD): here the texts are carried
-    ex.func_hooks["Rule.load"] = lambda ex_, e, args, kw: None
+    def rule_load(ex_: Any, e: Any, args: list, kw: dict) -> None:
+        if args and isinstance(args[0], MObj):
+            args[0].fields["<loaded-with>"] = args[1] if len(args) > 1 else kw.get("engine")
+
+    ex.func_hooks["Rule.load"] = rule_load
     ex.func_hooks["Function.load"] = lambda ex_, e, args, kw: None
     ex.func_hooks["RuleBlock.load_rules"] = lambda ex_, e, args, kw: None
 
@@ -198,10 +210,11 @@ def model_engines(ex: ObjExec, cnt: Counter) -> list[tuple[str, MObj]]:
             res.append(t)
         return res
 
-    for flags in (0, 1):
+    for flags, numeric in ((0, False), (1, False), (1, True)):
+        cnt.numeric = numeric
         T, F = bool(flags), not bool(flags)
         # every flag, optional operator and elidable field in both states; every term class with default and with generic height
-        ivs = [C("InputVariable", name="A", description="first input" if T else "", enabled=T, minimum=cnt.sym("lo"), maximum=cnt.sym("hi"), lock_range=F,
+        ivs = [C("InputVariable", name="A", description="first input: the one with every term" if T else "", enabled=T, minimum=cnt.sym("lo"), maximum=cnt.sym("hi"), lock_range=F,
                  terms=all_terms(None if T else (lambda: cnt.sym("h")), "a")),
                C("InputVariable", name="B", description="" if T else "second input", enabled=F, minimum=float("-inf"), maximum=float("inf"), lock_range=T, terms=[])]
         ovs = []
@@ -214,12 +227,12 @@ def model_engines(ex: ObjExec, cnt: Counter) -> list[tuple[str, MObj]]:
                          terms=all_terms(None, f"o{j}") if j == 0 else [make_component(ex, terms[(j + flags) % len(terms)], cnt, name="t", height=cnt.sym("h")) or
                                                                        C("Constant", name="t", value=cnt.sym("k"))]))
         ovs.append(C("OutputVariable", name="Onone", description="", enabled=T, minimum=cnt.sym("lo"), maximum=cnt.sym("hi"), lock_range=F, lock_previous=T,
-                     default_value=cnt.sym("def"), aggregation=None, defuzzifier=None, terms=[]))
+                     default_value=cnt.sym("def"), aggregation=None, defuzzifier=None, terms=[C("Constant", name="k", value=cnt.sym("k"))]))
         rbs = []
         for j, ac in enumerate(acts):
             for variant in range(6 if any("Comparator" in ann for _, ann, _ in ctor_params(ac)) else 2):
                 a = make_component(ex, ac, cnt, variant=variant)
-                rules = [C("Rule", enabled=True, weight=1.0 if (j + variant) % 2 else cnt.sym("w"), antecedent=C("Antecedent", text="A is aTriangle"),
+                rules = [C("Rule", enabled=bool((j + variant + flags) % 3), weight=1.0 if (j + variant) % 2 else cnt.sym("w"), antecedent=C("Antecedent", text="A is aTriangle"),
                            consequent=C("Consequent", text="O0 is o0Triangle")),
                          C("Rule", enabled=True, weight=cnt.sym("w") if (j + variant) % 2 else 1.0, antecedent=C("Antecedent", text="A is aTriangle or B is any"),
                            consequent=C("Consequent", text="O0 is o0Triangle and O1 is very t"))]
@@ -228,10 +241,11 @@ def model_engines(ex: ObjExec, cnt: Counter) -> list[tuple[str, MObj]]:
                              conjunction=ex.instantiate(tnorms[k % len(tnorms)], [], {}, E0) if k % 4 else None,
                              disjunction=ex.instantiate(snorms[k % len(snorms)], [], {}, E0) if (k + 1) % 4 else None,
                              implication=ex.instantiate(tnorms[(k + 2) % len(tnorms)], [], {}, E0) if (k + 2) % 4 else None,
-                             activation=a, rules=rules if k % 3 else []))
+                             activation=a, rules=rules if (k + 1) % 3 else []))
         rbs.append(C("RuleBlock", name="Rnone", description="", enabled=T, conjunction=None, disjunction=None, implication=None, activation=None, rules=[]))
-        eng = C("Engine", name=f"model{flags}", description="a model engine" if T else "", input_variables=ivs, output_variables=ovs, rule_blocks=rbs, load=False)
-        out.append((f"model engine {flags}", eng))
+        eng = C("Engine", name=f"model{flags}", description="a model engine: every component class once" if T else "", input_variables=ivs, output_variables=ovs, rule_blocks=rbs, load=False)
+        out.append((f"model engine {flags}{' (numbers)' if numeric else ''}", eng))
+    cnt.numeric = False
     # every norm class once in every slot
     rbs = []
     for j in range(max(len(tnorms), len(snorms))):
@@ -244,7 +258,7 @@ def model_engines(ex: ObjExec, cnt: Counter) -> list[tuple[str, MObj]]:
 
 
 # ---------------------------------------------------------------------------------------------- comparison
-RUNTIME_FIELDS = {"__bases__", "_value", "previous_value", "fuzzy", "activation_degree", "triggered", "engine", "_engine", "root", "expression", "conclusions", "variables"}
+RUNTIME_FIELDS = {"__bases__", "<loaded-with>", "_value", "previous_value", "fuzzy", "activation_degree", "triggered", "engine", "_engine", "root", "expression", "conclusions", "variables"}
 
 
 def differences(a: Any, b: Any, path: str, out: list[str], seen: set[tuple[int, int]], limit: int = 12) -> None:
@@ -267,7 +281,11 @@ def differences(a: Any, b: Any, path: str, out: list[str], seen: set[tuple[int, 
             if k not in a.fields or k not in b.fields:
                 out.append(f"{path}.{k}: the field exists on one side only")
                 continue
+            n0 = len(out)
             differences(a.fields[k], b.fields[k], f"{path}.{k}" if path else k, out, seen, limit)
+            for i_ in range(n0, len(out)):
+                if not out[i_].startswith("<"):
+                    out[i_] = f"<{a.cls.split('.')[-1]}.{k.lstrip('_')}> " + out[i_]  # the class and field that does not come back
         return
     if isinstance(a, (list, tuple)) and isinstance(b, (list, tuple)):
         if len(a) != len(b):
@@ -297,10 +315,11 @@ def differences(a: Any, b: Any, path: str, out: list[str], seen: set[tuple[int, 
 
 def show(v: Any) -> str:
     if isinstance(v, Sym):
+        if "~" in v.name:
+            name, how = v.name.split("~", 1)
+            return f"the number {name} printed as {how.replace('~', ', then ')} and read back"
         return f"the number {v.name}"
     if isinstance(v, App):
-        if v.fn.startswith("reread:"):
-            return f"the number {v.args[0].name if isinstance(v.args[0], Sym) else v.args[0]} printed as {v.fn[7:]} and read back"
         return f"{v.fn}(...)"
     if isinstance(v, MObj):
         return f"a {v.cls}"
@@ -308,9 +327,12 @@ def show(v: Any) -> str:
 
 
 def field_key(diff: str) -> str:
-    """`input_variables[A].terms[aTriangle].top: ...` -> the class-independent field path `input_variables.terms.top`."""
-    head = diff.split(":", 1)[0]
+    """`<Triangle.top> input_variables[A].terms[aTriangle].top: ...` -> `Triangle.top`; without a class tag the path without its indices."""
     import re
+    m = re.match(r"<([^>]+)> ", diff)
+    if m:
+        return m.group(1)
+    head = diff.split(":", 1)[0]
     return re.sub(r"\[[^\]]*\]", "", head)
 
 
@@ -331,6 +353,7 @@ def roundtrip(check: Check, rule: str = "RT-sem") -> None:
     bad: dict[str, tuple[str, Any]] = {}
     cases = 0
     fields_compared = 0
+    undecided: list[str] = []
     for label, eng in engines:
         cases += 1
         try:
@@ -346,30 +369,52 @@ def roundtrip(check: Check, rule: str = "RT-sem") -> None:
                                                  f"{(' (' + err.why + ')') if isinstance(err, Internal) else ''}", getattr(err, "node", None)))
             continue
         except Unknown as err:
-            raise AnalysisError(f"{rule}: {label}: {err}") from None
+            undecided.append(f"{label}: {err}")
+            continue
         diffs: list[str] = []
         differences(eng, back, "", diffs, set(), limit=40)
         fields_compared += count_fields(eng, set())
         for d in diffs:
-            bad.setdefault("structure:" + field_key(d), (f"{label}: after export and import, {d}", None))
+            import re
+            bad.setdefault("structure:" + field_key(d), (f"{label}: after export and import, {re.sub(r'^<[^>]+> ', '', d)}", None))
+        # terms that hold a reference to their engine (Linear, Function) must hold the re-imported engine itself
+        for coll in ("input_variables", "output_variables"):
+            for var in back.fields.get(coll, []) if isinstance(back, MObj) else []:
+                for t in var.fields.get("terms", []) if isinstance(var, MObj) else []:
+                    for fld in ("engine", "_engine"):
+                        if isinstance(t, MObj) and fld in t.fields and t.fields[fld] is not back:
+                            bad.setdefault("engine-references", (f"{label}: after the import the {t.cls} term `{t.fields.get('name')}` of the {coll[:-1].replace('_', ' ')} "
+                                                                 f"`{var.fields.get('name')}` refers to {'no engine' if t.fields[fld] is None else 'another object'}, not to the imported engine", None))
+        for rb in back.fields.get("rule_blocks", []) if isinstance(back, MObj) else []:
+            for rl in rb.fields.get("rules", []) if isinstance(rb, MObj) else []:
+                if isinstance(rl, MObj) and rl.fields.get("<loaded-with>") is not back:
+                    bad.setdefault("engine-references", (f"{label}: the rules of the imported rule block `{rb.fields.get('name')}` are "
+                                                         f"{'not loaded' if '<loaded-with>' not in rl.fields else 'loaded without the imported engine'}", None))
         if text != text2:
             la, lb = text.split("\n"), text2.split("\n")
             i = next((k for k, (x, y) in enumerate(zip(la, lb)) if x != y), min(len(la), len(lb)))
             bad.setdefault("fixed-point", (f"{label}: exporting the re-imported engine gives a different text; first difference in line {i + 1}: "
                                            f"`{(la[i] if i < len(la) else '<end>').strip()}` becomes `{(lb[i] if i < len(lb) else '<end>').strip()}`", None))
+    if len(undecided) == cases:
+        raise AnalysisError(f"{rule}: no model engine could be taken through the round trip: {undecided[0]}")
+    for u in undecided:
+        check.notes.append(f"{rule}: undecided (outside the interpreter's model): {u}")
     construct = "FllExporter.engine~FllImporter.from_string"
     keys = sorted(bad)
     structure_keys = [k for k in keys if k.startswith("structure:")]
     for k in structure_keys:
         fld = k.split(":", 1)[1]
-        check.require(False, rule, f"{construct}/{fld}", bad[k][0], loc(imp_from), {"field": fld}, exhaustive=True, cases=cases)
+        # a field that does not survive the round trip is the clause T10 (field coverage) decided on the model engines: same key as the table rule
+        if not any(o.status == "violation" and o.key == f"T10/{fld}" for o in check.obligations):
+            check.violation("T10", fld, bad[k][0] + " (found by interpreting the round trip, RT-sem)", loc(imp_from), {"field": fld})
     check.require(not structure_keys, rule, f"{construct}/structure", f"every persistent field of every component of the {cases} model engines comes back with its value "
                   f"({fields_compared} fields compared)" if not structure_keys else f"{len(structure_keys)} fields do not come back (reported separately)", loc(imp_from), {}, exhaustive=True, cases=cases) \
         if not structure_keys else None
-    for aspect in ("fixed-point", "no-internal-error"):
+    for aspect in ("fixed-point", "no-internal-error", "engine-references"):
         ok = aspect not in bad
         check.require(ok, rule, f"{construct}/{aspect}", {"fixed-point": "export(import(export(E))) == export(E) for every model engine",
-                                                           "no-internal-error": "the round trip of every model engine completes"}[aspect] if ok else bad[aspect][0],
+                                                           "no-internal-error": "the round trip of every model engine completes",
+                                                           "engine-references": "every imported term that refers to its engine refers to the imported engine"}[aspect] if ok else bad[aspect][0],
                       loc(exp_engine), {}, exhaustive=True, cases=cases)
     check.notes.append(f"{rule}: {cases} model engines, {cnt.n} symbolic numbers, {fields_compared} fields compared")
 
